@@ -239,5 +239,30 @@ def pair_case(draw, tier):
 	        'pattern': pattern, 'base': base_name}
 
 
+@st.composite
+def skewed_case(draw, tier):
+	"""One long array (4096..40000 elements, dense) against a short one - size-dependent code paths."""
+	da, db = draw(st.sampled_from(DT_PAIRS))
+	lim = min(DMAX[da], DMAX[db])
+	import random
+	rnd = random.Random(draw(st.integers(0, 2 ** 32 - 1)))
+	nbig = draw(st.sampled_from([4096, 4097, 5000, 9000, 20000, 40000]))
+	where = draw(st.sampled_from(['top', 'zero', 'mid']))
+	step_max = draw(st.sampled_from([1, 2, 3]))
+	if nbig * step_max + 10 > lim:
+		nbig = max(1, lim // (step_max + 1) - 10)
+	base = 0 if where == 'zero' else (lim - nbig * step_max - 5 if where == 'top' else max(0, lim // 2 - nbig))
+	big = []
+	cur = base
+	for _ in range(nbig):
+		big.append(cur)
+		cur += rnd.randint(1, step_max)
+	nsmall = draw(st.integers(0, 40))
+	small = sorted(set(rnd.sample(big, min(nsmall, len(big))) + [min(lim, big[-1] + rnd.randint(1, 9)) for _ in range(draw(st.integers(0, 3)))]
+	                   + [b + 1 for b in rnd.sample(big, min(3, len(big))) if b + 1 <= lim]))
+	a, b = (big, small) if draw(st.booleans()) else (small, big)
+	return {'kind': 'pair', 'a': a, 'b': b, 'da': da, 'db': db, 'strided': False, 'pattern': 'skewed_sizes', 'base': where}
+
+
 def strategy(tier):
-	return pair_case(tier)
+	return st.integers(0, 59).flatmap(lambda i: skewed_case(tier) if i == 59 else pair_case(tier))
